@@ -194,6 +194,7 @@ type Stmt struct {
 	Acts  []Action
 	Inv   []*Stmt
 	HasInv bool
+	ViaSM  bool // Repeat: build the actions map with rapid.StateMachineActions (reflection) instead of a literal map
 	ID    int // cleanup statement id (static)
 }
 
@@ -586,6 +587,9 @@ func (g *progGen) repeatStmt(vars []int, want int) *Stmt {
 		}
 		body = append(body, g.body(t.Int("rep.alen", 1, 3), &avars, 2, want, "action")...)
 		s.Acts = append(s.Acts, Action{Name: actionNames[nameSet][i], Body: body})
+	}
+	if na == 3 && nameSet == 0 && t.Chance("rep.via_statemachine", 30) {
+		s.ViaSM = true
 	}
 	if t.Chance("rep.inv", 60) {
 		s.HasInv = true
